@@ -69,6 +69,26 @@ check('C13', 'typestate rules over every swap2 instantiation (ordered flavour pa
       'Partial: exact exchange of the element sequences is a value statement and is not decided.',
       'DESIGN.md section 4, C13')
 
+check('C03', 'who-may-construct rule on comparator-typed expressions, post-dominance of sort/merge/unique after bulk writes, control dependence of the node reset, comparator-call counting, type-level const-view witnesses',
+      'Decides structural clauses necessary for C03: stored comparator used for every decision, every bulk writer re-establishes sorted+unique with a stable sort, insert(node) empties the node only on insertion, no mutable access to the sorted storage, every lookup is one binary search.',
+      'Partial: equality with std::set over histories, merge loops and the hint decision tree (C12) are not decided.',
+      'DESIGN.md section 4, C03')
+
+check('C04', 'typestate analysis over SmallSet members with facts from isSmall()/isSmallContFull()/grow() per operand; membership-test dominance; comparator provenance',
+      'Decides the state anchor of C04: exactly one of the two containers is written in each state on every path (incl. merge across template parameters), no add to the inline vector without a membership test, stored comparator everywhere, both backings analysed against the same rules.',
+      'Partial: observable equality with std::set over histories is not decided.',
+      'DESIGN.md section 4, C04')
+
+check('C11', 'typestate on the knowledge "large": results of removing calls are used only after re-testing the active container; sibling agreement of the alternative-selecting members; alternative access only in the matching state',
+      'Decides that every iterator handed to the caller is built from the container active at the return (erase returns end() of the active container when the last element goes) and that begin/end/rbegin/rend/find agree on the alternative in both states.',
+      'Partial: "visits every element exactly once" is inherited from the underlying containers (trusted).',
+      'DESIGN.md section 4, C11')
+
+check('C19', 'comparator-call counting on the structured paths of the instantiated lookup members (max over paths, interprocedural through amc callees), loop / linear-algorithm exclusion',
+      'Decides the stated bounds for every n: one binary search + <=2 direct comparisons per FlatSet lookup (2*ceil(log2(n+1))+4 with the standard\'s bound), <=4 comparisons on the search-free paths of insert_hint, <=2N+2 for the inline state of SmallSet.',
+      'Partial: that each correct hint takes a search-free path is value-dependent and not decided. Trusted: ISO complexity clauses of lower_bound/upper_bound.',
+      'DESIGN.md section 4, C19')
+
 PENDING = ['C01','C02','C03','C04','C05','C06','C07','C08','C09','C10','C11','C13','C14','C15','C16','C18','C19','C20']
 for p in PENDING:
     if p not in CHECKS:
